@@ -183,6 +183,17 @@ def run(chk):
 
 _C = "cnvlib/call.py"
 MUTANTS = [
+    dict(name="twin: threshold rank by np.searchsorted", expect="silent", file=_C, old="""        cnum = 0
+        for cnum, thresh in enumerate(thresholds):
+            if row.log2 <= thresh:
+                if ref_copies != ploidy:
+                    cnum = int(cnum * ref_copies / ploidy)
+                break
+""", new="""        cnum = int(np.searchsorted(thresholds, row.log2, side="left"))
+        if cnum < len(thresholds):
+            if ref_copies != ploidy:
+                cnum = int(cnum * ref_copies / ploidy)
+"""),
     dict(name="seeded C02e: threshold rank by bisect_right", edits=[(_C, '        cnum = 0\n        for cnum, thresh in enumerate(thresholds):\n            if row.log2 <= thresh:\n                if ref_copies != ploidy:\n                    cnum = int(cnum * ref_copies / ploidy)\n                break\n', '        cnum = bisect.bisect(thresholds, row.log2)\n        if cnum < len(thresholds):\n            if ref_copies != ploidy:\n                cnum = int(cnum * ref_copies / ploidy)\n'), (_C, 'import logging\n', 'import bisect\nimport logging\n')]),
     dict(name="twin: threshold rank by bisect_left", expect="silent", edits=[(_C, '        cnum = 0\n        for cnum, thresh in enumerate(thresholds):\n            if row.log2 <= thresh:\n                if ref_copies != ploidy:\n                    cnum = int(cnum * ref_copies / ploidy)\n                break\n', '        cnum = bisect.bisect_left(thresholds, row.log2)\n        if cnum < len(thresholds):\n            if ref_copies != ploidy:\n                cnum = int(cnum * ref_copies / ploidy)\n'), (_C, 'import logging\n', 'import bisect\nimport logging\n')]),
     dict(name="seeded C02f: allelic split gated on the variants argument", file=_C, old='        if "baf" in outarr:\n            # Calculate major', new='        if variants:\n            # Calculate major'),
